@@ -4,7 +4,8 @@ C03 — Only >2/3 of voting power, correctly signed for that exact block, makes 
 Part 2: `ValidatorSet.VerifyCommit` (model `Model.Commit.verifyCommit`) is sound and complete.
 The signature scheme is a parameter (`verify`); what a verifying signature MEANS (the key holder signed
 that message) is the explicit hypothesis `IdealSig.unforgeable`, never an axiom.
-(Part 1, threshold arithmetic: `C03Arith`; part 3, the vote set: `C03VoteSet`.)
+(Part 1, threshold arithmetic: `C03Arith`; part 3, vote-set step theorems: `C03VoteSet`; part 4, the vote-set invariant,
+`maj23_needs_two_thirds`, `makeCommit_verifies`: `C03Inv`; part 5, sign-bytes: `C03SignBytes`.)
 -/
 import LinkVerif.Props.C03Arith
 
@@ -215,9 +216,12 @@ theorem msg_binds (c c' : List UInt8) (v v' : Vote) (h : msgOf c v = msgOf c' v'
   simp only [msgOf, Msg.mk.injEq] at h
   exact ⟨h.1, h.2.1, h.2.2.1, h.2.2.2.1, h.2.2.2.2.1⟩
 
-/-- OPEN (stated, not proved): the canonical-JSON rendering is injective on its domain (ASCII chain id, 32-byte block
-hash, time within years 1..9999), so identifying a signed payload with the tuple `Msg` loses nothing.  Tied today only by
-the byte-for-byte comparison of `signBytes` with `Vote.SignBytes` (op `signbytes`) and the monitor `signbytes_binds`. -/
+/-- OPEN (stated, not proved at full strength): the canonical-JSON rendering is injective on its domain (ASCII chain id,
+32-byte block hash, time within years 1..9999), so identifying a signed payload with the tuple `Msg` loses nothing.
+PROVED PARTIAL: `signBytes_binds_step_fields` (Props/C03SignBytes.lean): for a fixed block id and canonical time the
+sign-bytes determine chain id (through Go's JSON escaping), height, round and type.  What stays open is the injectivity of the
+block-id rendering (hex, omitted-when-zero fields) and of the time rendering; those are tied only by the byte-for-byte
+comparison of `signBytes` with `Vote.SignBytes` (op `signbytes`) and the monitor `signbytes_binds`. -/
 def C03_signBytes_binds_statement : Prop :=
   ∀ m m' : Msg, (∀ b ∈ m.chain ++ m'.chain, b.toNat < 128) → m.bid.hash.length = 32 → m'.bid.hash.length = 32 →
     (-62135596800000 ≤ m.tsMs ∧ m.tsMs < 253402300800000) → (-62135596800000 ≤ m'.tsMs ∧ m'.tsMs < 253402300800000) →
